@@ -467,7 +467,35 @@ def _klass(mjm, i):
   return ""
 
 
-def _matches_cause(kl, mjm, i, got, ref, tol, scale):
+def _alt_geomdist(C, i, bad):
+  """What the distance sensor would report if separated (dist > margin) pairs of the `bad` type pair were not detected at all:
+  nearest of the remaining pairs (MuJoCo's own mj_geomDistance), or "nothing within cutoff"."""
+  mjm, mjd = C.mjm, C.mjd
+  g1, g2 = _pair_geoms(mjm, i)
+  cut = float(mjm.sensor_cutoff[i])
+  best = None
+  for a in g1:
+    for b in g2:
+      ft = np.zeros(6)
+      d = mujoco.mj_geomDistance(mjm, mjd, a, b, 20.0, ft)
+      tp = "-".join(sorted([_GNAME[int(mjm.geom_type[a])], _GNAME[int(mjm.geom_type[b])]]))
+      if tp == bad and d > max(float(mjm.geom_margin[a]), float(mjm.geom_margin[b])):
+        continue
+      if d < cut and (best is None or d < best[0]):
+        best = (d, ft.copy())
+  t = int(mjm.sensor_type[i])
+  if best is None:
+    return np.array([cut]) if t == int(S.mjSENS_GEOMDIST) else np.zeros(3 if t == int(S.mjSENS_GEOMNORMAL) else 6)
+  d, ft = best
+  if t == int(S.mjSENS_GEOMDIST):
+    return np.array([d])
+  if t == int(S.mjSENS_GEOMFROMTO):
+    return ft
+  n = ft[3:] - ft[:3]
+  return n / max(np.linalg.norm(n), 1e-12) * (1.0 if d >= 0 else -1.0)
+
+
+def _matches_cause(kl, mjm, i, got, ref, tol, scale, C=None):
   """True if the difference looks like the reported defect of class kl; any other failure inside the class keeps the generic signature
   (so a listed finding cannot hide a different defect of the same sensors)."""
   t = int(mjm.sensor_type[i])
@@ -477,14 +505,20 @@ def _matches_cause(kl, mjm, i, got, ref, tol, scale):
   if kl == ":static-body":  # MuJoCo reports zeros on static bodies
     return bool(np.all(ref == 0))
   if kl in (":capsule-capsule", ":mesh-plane"):  # separated pair not detected: cutoff / zeros instead of the distance data
-    return bool(np.all(np.abs(got - cut) < 1e-6 * max(1.0, cut))) if t == int(S.mjSENS_GEOMDIST) else bool(np.all(got == 0))
+    if bool(np.all(np.abs(got - cut) < 1e-6 * max(1.0, cut))) if t == int(S.mjSENS_GEOMDIST) else bool(np.all(got == 0)):
+      return True
+    # ... or, when the sensor ranges over several geom pairs, the data of the nearest *other* pair
+    if C is not None:
+      alt = _alt_geomdist(C, i, kl[1:])
+      return bool(alt.shape == got.shape and np.max(np.abs(alt - got)) <= 20 * tol * max(1.0, float(np.max(np.abs(alt)))))
+    return False
   return True
 
 
 def _fail(rec, C, i, got, ref, err, tol, why="", sigx="", scale=1.0):
   kl = _klass(C.mjm, i)
   if kl:
-    sigx = kl if _matches_cause(kl, C.mjm, i, got, ref, tol, scale) else ""
+    sigx = kl if _matches_cause(kl, C.mjm, i, got, ref, tol, scale, C) else ""
   tn, on, rn = _sname(C.mjm, i)
   k = int(np.argmax(np.abs(got - ref))) if got.shape == ref.shape and got.size else 0
   rec.violation(
